@@ -57,7 +57,7 @@ func genEdit(r *simkit.Rand, p *simkit.Plan, actor string, id *int64, untracked 
 		p.Ops = append(p.Ops, simkit.Op{Actor: actor, Kind: "problem", S: []string{side, path}})
 	case 7:
 		*id++
-		p.Ops = append(p.Ops, simkit.Op{Actor: actor, Kind: "edit", N: []int64{*id}, S: []string{side, path}})
+		p.Ops = append(p.Ops, simkit.Op{Actor: actor, Kind: "edit", N: []int64{*id, int64(r.Intn(3) / 2)}, S: []string{side, path}})
 	}
 }
 
@@ -136,6 +136,20 @@ func genModel(p *simkit.Plan, r *simkit.Rand, tier string) {
 			}
 		}
 	}
+	if p.Scenario == "disk-remote" {
+		// One or both endpoints behind the agent protocol.
+		c["remote_sides"] = int64(simkit.Pick(r, []int{1, 2, 2, 3}))
+		c["link_frag"] = int64(simkit.Pick(r, []int{0, 0, 0, 4096, 300}))
+		c["link_short"] = int64(simkit.Pick(r, []int{0, 0, 64}))
+		c["link_delay_us"] = int64(simkit.Pick(r, []int{0, 0, 1000, 50000}))
+		c["fs_gates"] = int64(simkit.Pick(r, []int{0, 0, 2, 3}))
+		if r.Chance(1, 2) {
+			for k := r.Range(1, 2); k > 0; k-- {
+				p.Faults = append(p.Faults, simkit.Fault{Kind: "link_cut", Key: simkit.Pick(r, []string{"alpha", "beta"}), Nth: r.Range(1, 2),
+					Arg: int64(r.SmallBiased(6000)), S: simkit.Pick(r, []string{"ab", "ba"})})
+			}
+		}
+	}
 	if p.Scenario == "disk-edits" {
 		// Few paths, all regular files on both sides, edited over and over:
 		// replacements with a new inode, in-place rewrites of the same size
@@ -158,7 +172,7 @@ func genModel(p *simkit.Plan, r *simkit.Rand, tier string) {
 			case 0:
 				p.Ops = append(p.Ops, simkit.Op{Actor: "user", Kind: "put", N: []int64{id, int64(r.Intn(2))}, S: []string{side, path}})
 			case 1:
-				p.Ops = append(p.Ops, simkit.Op{Actor: "user", Kind: "edit", N: []int64{id}, S: []string{side, path}})
+				p.Ops = append(p.Ops, simkit.Op{Actor: "user", Kind: "edit", N: []int64{id, int64(r.Intn(3) / 2)}, S: []string{side, path}})
 			case 2:
 				p.Ops = append(p.Ops, simkit.Op{Actor: "user", Kind: "chmod", S: []string{side, path}})
 			case 3:
@@ -219,6 +233,12 @@ func genModel(p *simkit.Plan, r *simkit.Rand, tier string) {
 		// Converge first, then one root event, then give it time.
 		c["halt_side"] = int64(r.Intn(2))
 		c["halt_kind"] = int64(r.Intn(4)) // 0 delete, 1 replace by file, 2 empty, 3 control: empty both
+		if onDisk && r.Chance(1, 2) {
+			c["halt_midcycle"] = 1
+			c["halt_activity"] = int64(r.Intn(4))
+			c["halt_nth"] = int64(r.Range(1, 8))
+			c["mirror_init"] = 1
+		}
 	}
 	if p.Scenario == "model-outcomes-enum" {
 		c["enum_cap"] = 24
@@ -243,6 +263,21 @@ func genModel(p *simkit.Plan, r *simkit.Rand, tier string) {
 			p.Faults = append(p.Faults, simkit.Fault{Kind: "fs_user",
 				Key: simkit.Pick(r, []string{"alpha", "beta"}) + "." + simkit.Pick(r, []string{"scan", "scan", "transition", "transition", "stage"}),
 				Nth: r.Range(1, 60), Arg: id, S: simkit.Pick(r, kinds) + ":" + simkit.Pick(r, paths)})
+		}
+	}
+	if (p.Scenario == "disk" || p.Scenario == "disk-untracked" || p.Scenario == "disk-remote" || p.Scenario == "disk-edits") && r.Chance(1, 3) {
+		// System call failures inside scans, staging and transitions.
+		sites := [][2]string{{"transition", "openat"}, {"transition", "mkdirat"}, {"transition", "renameat"}, {"transition", "renameat"}, {"transition", "unlinkat"},
+			{"transition", "fchmod"}, {"transition", "symlinkat"}, {"transition", "fstatat"}, {"transition", "readdir"},
+			{"scan", "openat"}, {"scan", "read"}, {"scan", "fstatat"}, {"scan", "readdir"}, {"scan", "readlinkat"},
+			{"stage", "openat"}, {"supply", "read"}, {"supply", "openat"}, {"receive", "openat"}}
+		for k := r.Range(1, 2); k > 0; k-- {
+			site := simkit.Pick(r, sites)
+			errno := int64(simkit.Pick(r, []int{1, 2, 3})) // EIO, EACCES, ENOSPC
+			if site[1] == "renameat" && r.Chance(1, 2) {
+				errno = 5 // EXDEV: staging on another device
+			}
+			p.Faults = append(p.Faults, simkit.Fault{Kind: "fs_errno", Key: simkit.Pick(r, []string{"alpha", "beta"}) + "." + site[0] + "." + site[1], Nth: r.Range(1, 6), Arg: errno})
 		}
 	}
 	if p.Scenario == "model-outcomes" {
@@ -303,12 +338,19 @@ func genLinks(p *simkit.Plan, r *simkit.Rand, tier string) {
 		}
 	}
 	n := r.Range(2, 10)
+	var used []string
 	for i := 0; i < n; i++ {
 		if i > n/2 {
 			actor = "user"
 		}
-		where := simkit.Pick(r, []string{"l", "a/l", "a/b/l", "a/b/c/l", "m", "a/m"})
-		p.Ops = append(p.Ops, simkit.Op{Actor: actor, Kind: "link", S: []string{side(), where, target()}})
+		where := simkit.Pick(r, []string{"l", "a/l", "a/b/l", "a/b/c/l", "m", "a/m", "a/b/m", "x/l", "x/y/l"})
+		tg := target()
+		if len(used) > 0 && r.Chance(1, 2) {
+			// The same target text at another depth resolves elsewhere.
+			tg = simkit.Pick(r, used)
+		}
+		used = append(used, tg)
+		p.Ops = append(p.Ops, simkit.Op{Actor: actor, Kind: "link", S: []string{side(), where, tg}})
 		if r.Chance(1, 4) {
 			p.Ops = append(p.Ops, simkit.Op{Actor: "client", Kind: "flush", N: []int64{0}})
 		}
@@ -334,7 +376,7 @@ func execSession(t *testing.T, plan *simkit.Plan) *simkit.Result {
 	res := simkit.Run(t, plan, simkit.Options{MaxSteps: 20000, Horizon: 20 * time.Minute, RealTimeout: 90 * time.Second}, func(s *simkit.Sim) {
 		h := &harness{
 			s: s, plan: plan, mode: modes[plan.C("mode")%4], dataDir: dataDir,
-			trees: map[string]*core.Entry{"alpha": dirEntry(), "beta": dirEntry()},
+			trees:   map[string]*core.Entry{"alpha": dirEntry(), "beta": dirEntry()},
 			version: map[string]int{}, scanned: map[string]int{"alpha": -1, "beta": -1},
 			pollWake: map[string]chan struct{}{"alpha": make(chan struct{}, 1), "beta": make(chan struct{}, 1)},
 			preserve: map[string]bool{"alpha": true, "beta": true}, userSeq: map[string]int64{},
@@ -543,6 +585,7 @@ func (h *harness) settle() {
 		h.mu.Unlock()
 		return mgr.Flush(c, h.sel, "", false)
 	}
+	s.StopFaults()
 	h.mu.Lock()
 	h.settling = true
 	term, paused := h.terminatedSince > 0, h.pausedSince > 0
@@ -617,6 +660,16 @@ func (h *harness) haltPhase(flush func() error) {
 	twoWay := !h.oneWay()
 	replica := h.mode == core.SynchronizationMode_SynchronizationModeOneWayReplica
 	s.Gate("settle", "root-event")
+	// (Not for the emptying event: when the transition that is in flight then
+	// creates the new file in the emptied root, the next scan finds a root with
+	// one entry, which no observer can tell from a user who deleted the rest.)
+	// (And only over a root with at least two entries: a scan that races with
+	// the event can see the struck root as an empty directory, which is the
+	// one-sided emptying case and is only guarded from two entries upwards.)
+	if h.plan.C("halt_midcycle") == 1 && h.disk != nil && (kind == 0 || kind == 1) && rootEntries >= 2 {
+		h.midcycleRootEvent(flush, side, kind)
+		return
+	}
 	switch kind {
 	case 0:
 		// Deleting the source of a propagation direction would be propagated;
@@ -676,6 +729,65 @@ func (h *harness) haltPhase(flush func() error) {
 	}
 }
 
+// midcycleRootEvent is the variant of the root event that strikes inside a
+// cycle: the other side gains a new file (so the cycle has something to stage
+// and create on the struck side), and the root of the struck side is deleted,
+// replaced or emptied just before the Nth system call of that side's scan,
+// staging or transition. The user deletes nothing else, so whatever the other
+// side held at that moment must still be there afterwards: anything missing is
+// a propagated root deletion.
+func (h *harness) midcycleRootEvent(flush func() error, side string, kind int64) {
+	s, d := h.s, h.disk
+	y := other(side)
+	h.applyUserOp(simkit.Op{Kind: "put", N: []int64{9998, 0}, S: []string{y, "zz-new"}})
+	var mu sync.Mutex
+	var before *core.Entry
+	fired := false
+	op := simkit.Op{Kind: "rootdel", S: []string{side, ""}}
+	switch kind {
+	case 1:
+		op = simkit.Op{Kind: "rootfile", N: []int64{9999}, S: []string{side, ""}}
+	case 2:
+		op = simkit.Op{Kind: "rootempty", S: []string{side, ""}}
+	}
+	// (Never inside the struck side's own scan: a scan that races with the
+	// removal of a tree legitimately observes part of it, and what it saw
+	// missing is then an ordinary deletion to every observer.)
+	activity := []string{"stage", "stage", "transition", "stage"}[h.plan.C("halt_activity")%4]
+	d.mu.Lock()
+	d.midcycle = &midcycleEvent{side: side, activity: activity, countdown: int(h.plan.C("halt_nth")), fire: func() {
+		tree := d.walkTree(y)
+		h.applyUserOp(op)
+		mu.Lock()
+		before, fired = tree, true
+		mu.Unlock()
+		s.Count("probe.midcycle_root_event_"+activity, 1)
+		s.Logf("user", "root event %d on %s in the middle of its %s", kind, side, activity)
+	}}
+	d.mu.Unlock()
+	for i := 0; i < 4; i++ {
+		flush()
+		time.Sleep(20*time.Second + 17*time.Microsecond)
+	}
+	d.mu.Lock()
+	d.midcycle = nil
+	d.mu.Unlock()
+	mu.Lock()
+	defer mu.Unlock()
+	if !fired {
+		return
+	}
+	after := d.walkTree(y)
+	walk(before, "", func(p string, e *core.Entry) {
+		if e.Kind == core.EntryKind_Directory || unsyncKind(e.Kind) {
+			return
+		}
+		if got := lookup(after, p); got == nil || !shallowEqual(got, e) {
+			s.Violate("C11", "content-lost-after-root-event", fmt.Sprintf("midcycle-kind%d", kind), "the root of %s was struck (event %d) in the middle of a cycle; afterwards %s lost %q (%s, now %s) although the user deleted nothing there", side, kind, y, p, render(e), render(got))
+		}
+	})
+}
+
 // invariant runs at every quiescent point.
 func (h *harness) invariant() {
 	if h.disk != nil {
@@ -687,7 +799,7 @@ func (h *harness) invariant() {
 func (h *harness) finalChecks() {
 	s := h.s
 	h.mu.Lock()
-	atRest, ideal := h.atRest, h.ideal
+	atRest := h.atRest
 	term := h.terminatedSince > 0
 	paused := h.pausedSince > 0
 	a, b := cloneEntry(h.currentTree("alpha")), cloneEntry(h.currentTree("beta"))
@@ -735,7 +847,7 @@ func (h *harness) finalChecks() {
 			}
 		}
 	}
-	if twoWay && ideal {
+	if twoWay {
 		paths := map[string]bool{}
 		walk(a, "", func(p string, _ *core.Entry) { paths[p] = true })
 		walk(b, "", func(p string, _ *core.Entry) { paths[p] = true })
@@ -765,7 +877,7 @@ func (h *harness) finalChecks() {
 	}
 	// C01 rule 3: differing non-archived content at the same path is reported
 	// as a conflict (two-way-safe) - never silently left or resolved.
-	if h.mode == core.SynchronizationMode_SynchronizationModeTwoWaySafe && ideal {
+	if h.mode == core.SynchronizationMode_SynchronizationModeTwoWaySafe {
 		walk(a, "", func(p string, ea *core.Entry) {
 			eb := lookup(b, p)
 			if ea.Kind == core.EntryKind_Directory || eb == nil || eb.Kind == core.EntryKind_Directory || unsyncKind(ea.Kind) || unsyncKind(eb.Kind) {
@@ -777,7 +889,6 @@ func (h *harness) finalChecks() {
 		})
 	}
 }
-
 
 // execOutcomeEnumeration decides C05 by enumeration for one seeded history: a
 // fault-free execution counts the changes each endpoint is asked to apply;
